@@ -191,7 +191,7 @@ func BuildRoot(w *World, root string, lib *OpLib) {
 
 // Variants are configuration changes permitted by validation, applied through the real gov
 // message servers (with the message's ValidateBasic when it has one) at fixture time.
-var AllVariants = []string{"", "llp_fallback_off", "mc_lps1", "mc_lps0_stakers1", "mc_stakers_tiny", "es_provider1", "es_provider0", "oracle_min", "vest_blocks0", "perp_extreme", "ss_rates_equal"}
+var AllVariants = []string{"", "llp_fallback_off", "mc_lps1", "mc_lps0_stakers1", "mc_stakers_tiny", "es_provider1", "es_provider0", "oracle_min", "vest_blocks0", "perp_extreme", "ss_rates_equal", "tok_inflation_deleted", "tok_window_future"}
 
 type validator interface{ ValidateBasic() error }
 
@@ -290,6 +290,28 @@ func variantGov(w *World, variant string) func(ctx sdk.Context) error {
 			}
 			_, err := perpkeeper.NewMsgServerImpl(*app.PerpetualKeeper).UpdateParams(ctx, m)
 			return err
+		}
+	case "tok_inflation_deleted", "tok_window_future":
+		// tokenomics: the only time-based inflation entry is deleted (empty list), or replaced by one whose
+		// window lies in the future (no entry covers the current height: incentives switched to nil)
+		return func(ctx sdk.Context) error {
+			ms := tkkeeper.NewMsgServerImpl(app.TokenomicsKeeper)
+			d := &tktypes.MsgDeleteTimeBasedInflation{Authority: gov, StartBlockHeight: 1, EndBlockHeight: 100000000}
+			if err := vb(d); err != nil {
+				return err
+			}
+			if _, err := ms.DeleteTimeBasedInflation(ctx, d); err != nil {
+				return err
+			}
+			if variant == "tok_window_future" {
+				c := &tktypes.MsgCreateTimeBasedInflation{Authority: gov, StartBlockHeight: 50000000, EndBlockHeight: 100000000, Description: "verif-future", Inflation: &tktypes.InflationEntry{LmRewards: 9999999999999, IcsStakingRewards: 9999999999999, CommunityFund: 1, StrategicReserve: 1, TeamTokensVested: 1}}
+				if err := vb(c); err != nil {
+					return err
+				}
+				_, err := ms.CreateTimeBasedInflation(ctx, c)
+				return err
+			}
+			return nil
 		}
 	case "ss_rates_equal":
 		return func(ctx sdk.Context) error {
